@@ -98,6 +98,17 @@ Decomposed(ss) ==
   [k \in 1..Len(ss) |-> [t |-> "assign", name |-> Tn(k),
                          e |-> Fl(IF k = 1 THEN Var(A) ELSE Var(Tn(k - 1)), Steps[ss[k]].n, Steps[ss[k]].a)]]
   \o <<Ob(Var(Tn(Len(ss))))>>
+\* steps whose result the reference leaves open (json, inspect, type hand back text of their own making): whatever they
+\* give, the pipeline gives what the steps give one at a time - the harness renders both and compares
+XSteps == << [n |-> "json", a |-> <<>>], [n |-> "inspect", a |-> <<>>], [n |-> "type", a |-> <<>>], [n |-> "size", a |-> <<>>],
+             [n |-> "plus", a |-> <<Lit(IntV(1))>>], [n |-> "upcase", a |-> <<>>], [n |-> "first", a |-> <<>>], [n |-> "append", a |-> <<Lit(S(<<33>>))>>] >>
+RECURSIVE XChain(_, _)
+XChain(e, ss) == IF ss = <<>> THEN e ELSE XChain(Fl(e, XSteps[Head(ss)].n, XSteps[Head(ss)].a), Tail(ss))
+XDecomposed(ss) ==
+  [k \in 1..Len(ss) |-> [t |-> "assign", name |-> Tn(k),
+                         e |-> Fl(IF k = 1 THEN Var(A) ELSE Var(Tn(k - 1)), XSteps[ss[k]].n, XSteps[ss[k]].a)]]
+  \o <<Ob(Var(Tn(Len(ss))))>>
+XRecvU == << S(<<195, 169>>), IntV(1), S(<<97>>), Arr(<<IntV(1), S(<<195, 169>>)>>), Flt(5, 2), Nil, Bool(TRUE) >>
 RECURSIVE SeqsOfLen(_, _)
 SeqsOfLen(n, m) == IF n = 0 THEN {<<>>} ELSE {<<i>> \o t : i \in 1..m, t \in SeqsOfLen(n - 1, m)}
 
@@ -226,6 +237,7 @@ Cases ==
   \cup [g : {"litws"}, k : 0..4]
   \cup [g : {"rng"}, lo : (0 - 1)..3, hi : (0 - 2)..4, use : 1..NRngUses, asvar : BOOLEAN]
   \cup [g : {"names"}, nm : 1..Len(NameU), use : 1..NNameUses]
+  \cup [g : {"pipex"}, r : 1..Len(XRecvU), ss : SeqsOfLen(2, Len(XSteps)) \cup SeqsOfLen(3, 3)]
   \cup [g : {"litnames"}, use : 1..Len(LitNameUses), strict : BOOLEAN]
   \cup [g : {"space"}, q : 1..Len(SpaceProgs), sp : 1..Len(Spacings), tight : BOOLEAN]
 
@@ -249,6 +261,7 @@ ProgOf(x) ==
             [] x.form = "assign" -> <<[t |-> "assign", name |-> <<122>>, e |-> Lit(LitU[x.v])], T(<<91>>), Ob(Var(<<122>>)), T(<<93>>)>>)
     [] x.g = "rng" -> RngUses(x)[x.use]
     [] x.g = "names" -> NameUses(NameU[x.nm])[x.use]
+    [] x.g = "pipex" -> <<Ob(XChain(Var(A), x.ss))>>
     [] x.g = "litnames" -> LitNameUses[x.use]
     [] x.g = "litws" -> WsProg(x.k)
     [] x.g = "space" -> SpaceProgs[x.q]
@@ -262,6 +275,7 @@ EnvOf2(x) ==
     [] x.g = "litws" -> <<>>
     [] x.g = "rng" -> << <<A, Arr(<<IntV(7)>>)>>, <<Lo, IntV(x.lo)>>, <<Hi, IntV(x.hi)>> >>
     [] x.g = "names" -> << <<NameU[x.nm], S(<<86>>)>>, <<<<109>>, MapV(<< <<NameU[x.nm], S(<<80, 80>>)>> >>)>> >>
+    [] x.g = "pipex" -> << <<A, XRecvU[x.r]>> >>
     [] x.g = "litnames" -> << <<N_nil, S(<<78>>)>>, <<N_true, S(<<84>>)>>, <<N_false, S(<<70>>)>>,
                               <<<<109>>, MapV(<< <<N_nil, S(<<80>>)>>, <<N_true, S(<<81>>)>> >>)>> >>
     [] x.g = "space" -> PipeEnv(1)
@@ -324,11 +338,13 @@ IdOf(x) ==
     [] x.g = "bad" -> "bad-" \o ToString(x.f) \o "-" \o x.kind
     [] x.g = "litws" -> "litws-" \o ToString(x.k)
     [] x.g = "lit" -> "lit-" \o ToString(x.v) \o "-" \o x.form
+    [] x.g = "pipex" -> "pipex-" \o ToString(x.r) \o "-" \o ToString(x.ss)
     [] x.g = "names" -> "names-" \o ToString(x.nm) \o "-" \o ToString(x.use)
     [] x.g = "litnames" -> "litnames-" \o ToString(x.use) \o "-" \o ToString(x.strict)
     [] x.g = "rng" -> "rng-" \o ToString(x.lo) \o "-" \o ToString(x.hi) \o "-" \o ToString(x.use) \o "-" \o ToString(x.asvar)
     [] x.g = "space" -> "space-" \o ToString(x.q) \o "-" \o ToString(x.sp) \o "-" \o ToString(x.tight)
 EmitCase == PrintT(ToJson(
   [id |-> IdOf(c), kind |-> "render", prog |-> ProgOf(c), env |-> EnvOf2(c), strict |-> (c.g = "look" /\ c.strict), g |-> c.g]
-  @@ (IF c.g = "space" THEN [spell |-> [sp |-> Spacings[c.sp], tight |-> c.tight]] ELSE <<>>)))
+  @@ (IF c.g = "space" THEN [spell |-> [sp |-> Spacings[c.sp], tight |-> c.tight]] ELSE <<>>)
+  @@ (IF c.g = "pipex" THEN [prog2 |-> XDecomposed(c.ss)] ELSE <<>>)))
 =============================================================================
